@@ -127,7 +127,7 @@ def model_run(ref, mv, lines, tid_pos):
     res = [None] * len(lines)
     if not idx:
         return res, None
-    rc, out, err = run_lines(ref, [str(mv.path)], [lines[i] for i in idx])
+    rc, out, err = run_lines(ref, [str(mv.path)], [lines[i] for i in idx], timeout=600)
     if rc != 0 or len(out) != len(idx):
         return None, f"model driver failed: rc={rc} {err[-300:]}"
     for i, o in zip(idx, out):
